@@ -425,6 +425,16 @@ theorem dropped_future_not_completed (c : Cons) (p : Part) (d : Pending) (hreg :
     (cstep c (.part p)).done = c.done ∧ (cstep c (.part p)).trans p.tx = none := by
   simp [cstep, hreg, hfin, hdrop, setT_same]
 
+/-- the traced programs of `call_operation` (after the HTTP round trip) and of `on_operation_invoked_report`, in every
+    situation (nothing buffered / final part buffered / `Fail` response; unknown, non-final, final part): the scan of the
+    early-part buffer, the registration, the look-up, the completion of the future all happen inside ONE critical section
+    of `_transactions_lock` - which is what makes `response` and `part` atomic steps of the consumer model -/
+theorem generated_rendezvous_one_section :
+    Generated.C09.consumerProgs.length = 6 ∧ ∀ p ∈ Generated.C09.consumerProgs, Sync.oneSection p = true := by decide
+
+/-- a scan of the buffer before the lock is taken is rejected by the side condition (what a lost report looks like) -/
+theorem scan_outside_lock_rejected : Sync.oneSection [.scanBuf, .acq, .register, .rel] = false := by decide
+
 /-! ### the generated tables are the ones the model uses -/
 
 theorem generated_tables_match :
